@@ -8,6 +8,7 @@ import (
 	"go/constant"
 	"go/token"
 	"go/types"
+	"os"
 	"regexp"
 	"sort"
 	"strings"
@@ -302,7 +303,7 @@ func (w *World) failsOnly(b *ssa.BasicBlock, memo map[*ssa.BasicBlock]int) bool 
 	switch t := lastInstr(b).(type) {
 	case *ssa.Return:
 		st := w.errState(t)
-		res = st == triNonNil || st == triUnknown
+		res = st == triNonNil
 	case *ssa.Panic:
 		res = true
 	case *ssa.Jump, *ssa.If:
@@ -343,6 +344,34 @@ func (w *World) Guards(fn *ssa.Function) []*Guard {
 			out = append(out, &Guard{If: ifi, Cond: negateCond(c), CondI: negateCond(ci), Pass: t, Fail: f})
 		}
 	}
+	return out
+}
+
+// GuardsDeep: the failing guards of fn and of the module functions it calls
+// statically (validation arms moved into helpers), to the given depth.
+func (w *World) GuardsDeep(fn *ssa.Function, depth int) []*Guard {
+	seen := map[*ssa.Function]bool{}
+	var out []*Guard
+	var rec func(f *ssa.Function, d int)
+	rec = func(f *ssa.Function, d int) {
+		if f == nil || f.Blocks == nil || seen[f] {
+			return
+		}
+		seen[f] = true
+		out = append(out, w.Guards(f)...)
+		if d == 0 {
+			return
+		}
+		for _, c := range CallsIn(f) {
+			if cal := c.Common().StaticCallee(); cal != nil && w.InModule(cal) {
+				rec(cal, d-1)
+			}
+		}
+		for _, an := range f.AnonFuncs {
+			rec(an, d-1)
+		}
+	}
+	rec(fn, depth)
 	return out
 }
 
@@ -554,6 +583,7 @@ type pathEnd struct {
 	Events []string
 	Term   string // ok | err | unknown | panic | loop
 	Ret    *ssa.Return
+	RetErr ssa.Value // the error result as the path carries it (phis resolved), if any
 }
 
 // enumPaths walks the CFG of fn from its entry. eval decides branch conditions
@@ -577,7 +607,7 @@ func (w *World) enumPaths(fn *ssa.Function, eval func(cond ssa.Value) (val bool,
 	}
 	e.walkFn(fn, nil, 0, func(ev []string, ret *ssa.Return, term string) {
 
-		e.out = append(e.out, pathEnd{append([]string(nil), ev...), term, ret})
+		e.out = append(e.out, pathEnd{append([]string(nil), ev...), term, ret, e.retErr})
 	})
 	return e.out, e.complete
 }
@@ -602,6 +632,7 @@ type enumerator struct {
 	// startBlock; arriving at stopBlock again ends the path with term "back"
 	// (w.cur then holds the phi bindings of that arrival)
 	startBlock, stopBlock *ssa.BasicBlock
+	retErr                ssa.Value
 }
 
 type pathState struct {
@@ -809,6 +840,10 @@ func (e *enumerator) walkFn(fn *ssa.Function, ev []string, depth int, k func(ev 
 					}
 				}
 			case *ssa.Return:
+				e.retErr = nil
+				if idx := errResultIndex(fn); idx >= 0 && idx < len(t.Results) {
+					e.retErr = e.resolve(stripConv(retResult(t, idx)), st)
+				}
 				k(ev, t, e.termOf(t, st, fn))
 				return
 			case *ssa.Panic:
@@ -948,6 +983,36 @@ func (w *World) evalBool(v ssa.Value, st *pathState, eval func(ssa.Value) (bool,
 	case *ssa.Const:
 		if x.Value != nil && x.Value.Kind() == constant.Bool {
 			return constant.BoolVal(x.Value), true
+		}
+	case *ssa.Parameter:
+		// a flag of a helper being evaluated for a call that passes a constant
+		if isBoolType(x.Type()) {
+			for i := len(w.inlineEnv) - 1; i >= 0; i-- {
+				if s, ok := w.inlineEnv[i][x]; ok {
+					switch s {
+					case "true":
+						return true, true
+					case "false":
+						return false, true
+					}
+					break
+				}
+			}
+		}
+	case *ssa.Extract:
+		// a boolean result of a module helper: decided when its feasible returns agree
+		if isBoolType(x.Type()) {
+			if b, ok := eval(v); ok {
+				return b, true
+			}
+			if call, ok := x.Tuple.(*ssa.Call); ok && depth < 3 {
+				if rv := w.helperResult(call, x.Index, st, eval, depth); rv != nil {
+					if c, isC := rv.(*ssa.Const); isC && c.Value != nil && c.Value.Kind() == constant.Bool {
+						return constant.BoolVal(c.Value), true
+					}
+				}
+			}
+			return false, false
 		}
 	case *ssa.UnOp:
 		if x.Op == token.NOT {
@@ -1298,11 +1363,15 @@ func (w *World) returnedValues(fn *ssa.Function, idx int, eval func(ssa.Value) (
 	var out []ssa.Value
 	complete := true
 	budget := 512
-	w.lastRetBlocks = map[ssa.Value]*ssa.BasicBlock{}
+	retBlocks := map[ssa.Value]*ssa.BasicBlock{} // local: nested evaluations of helpers must not clobber it
+	retOrig := map[ssa.Value]ssa.Value{}         // the value as written in fn (before helper results were looked through)
+	defer func() { w.lastRetBlocks, w.lastRetOrig = retBlocks, retOrig }()
 	var curRet *ssa.BasicBlock
+	var curOrig ssa.Value
 	add := func(v ssa.Value) {
-		if _, ok := w.lastRetBlocks[v]; !ok {
-			w.lastRetBlocks[v] = curRet
+		if _, ok := retBlocks[v]; !ok {
+			retBlocks[v] = curRet
+			retOrig[v] = curOrig
 		}
 		for _, o := range out {
 			if o == v {
@@ -1362,6 +1431,12 @@ func (w *World) returnedValues(fn *ssa.Function, idx int, eval func(ssa.Value) (
 		case *ssa.Return:
 			if idx < len(t.Results) {
 				curRet = b
+				curOrig = retResult(t, idx)
+				if ph, isPhi := curOrig.(*ssa.Phi); isPhi {
+					if nv, ok := st.phi[ph]; ok {
+						curOrig = nv
+					}
+				}
 				add(w.resolveValue(retResult(t, idx), st, eval, depth))
 			}
 		case *ssa.If:
@@ -1405,7 +1480,7 @@ func (w *World) nilnessOnPath(v ssa.Value, st *pathState, eval func(ssa.Value) (
 				}
 				w.inlineEnv = append(w.inlineEnv, env)
 				vals, complete := w.returnedValues(cal, idx, eval, depth+1)
-				blocks := w.lastRetBlocks
+				blocks, origs := w.lastRetBlocks, w.lastRetOrig
 				w.inlineEnv = w.inlineEnv[:len(w.inlineEnv)-1]
 				if complete && len(vals) > 0 {
 					all := 0
@@ -1420,6 +1495,18 @@ func (w *World) nilnessOnPath(v ssa.Value, st *pathState, eval func(ssa.Value) (
 							case triNil:
 								n = -1
 							}
+							// the value as the helper wrote it may be nil-tested on the way to the return
+							if o := origs[x]; n == 0 && o != nil && o != x {
+								switch w.valueErrState(o, b, 0) {
+								case triNonNil:
+									n = 1
+								case triNil:
+									n = -1
+								}
+							}
+						}
+						if os.Getenv("RIGOCHECK_DEBUG") == "nilness" {
+							fmt.Println("DBG nilness", w.FName(cal), w.Canon(x), n, blocks[x] != nil)
 						}
 						if n == 0 || (i > 0 && n != all) {
 							all = 0
